@@ -158,6 +158,57 @@ def _random_job(k):
     return {"k": k, "bad": bad, "case": {"ny": ny, "wingbox": wing}}
 
 
+def _wingbox_section_job(k):
+    """Wingbox section properties: the upper and the lower skin are INDEPENDENT polylines (same number of stations, same spar
+    locations).  Describing the same piecewise-linear section with both skins re-sampled on the union of the stations must
+    leave area, enclosed / internal area, Iy, Qz, J and the four stress distances unchanged (Iz is a segment-wise
+    approximation and is not refinement-invariant); the enclosed area equals the trapezoid integral of the mid-skin lines."""
+    from openaerostruct.structures.section_properties_wingbox import SectionPropertiesWingbox
+
+    from .. import builders as B
+
+    rng = np.random.default_rng(seed() * 157 + k)
+    ux, uy, lx, ly = [np.array(a, dtype=float) for a in B.wingbox_airfoil()]
+    n = len(ux)
+    # move the interior stations of the lower skin (the end stations are the spars)
+    xl = lx.copy()
+    xl[1:-1] = np.sort(rng.uniform(lx[0] + 1e-3, lx[-1] - 1e-3, n - 2))
+    yl = np.interp(xl, lx, ly)
+    ny = int(rng.integers(3, 6))
+    ne = ny - 1
+    inp = {"streamwise_chords": rng.uniform(2.5, 4.0, ne), "fem_twists": rng.uniform(-0.05, 0.05, ne), "spar_thickness": rng.uniform(0.004, 0.01, ne), "skin_thickness": rng.uniform(0.004, 0.012, ne), "t_over_c": rng.uniform(0.10, 0.14, ne)}
+    inp["fem_chords"] = inp["streamwise_chords"] * rng.uniform(0.97, 1.0, ne)
+    outs = ["A", "A_enc", "A_int", "Iy", "Qz", "J", "hfront", "hrear"]  # htop / hbottom are soft maxima over the stations
+
+    def run(xu_, yu_, xl_, yl_):
+        surf = {"name": "wing", "mesh": np.zeros((2, ny, 3)), "symmetry": True, "original_wingbox_airfoil_t_over_c": 0.12, "data_x_upper": xu_, "data_y_upper": yu_, "data_x_lower": xl_, "data_y_lower": yl_}
+        return run_comp(SectionPropertiesWingbox(surface=surf), inp, outs)
+
+    a = run(ux, uy, xl, yl)
+    X = np.array(sorted(set(ux.tolist()) | set(xl.tolist())))
+    b = run(X, np.interp(X, ux, uy), X, np.interp(X, xl, yl))
+    bad = []
+    for o in outs:
+        if not np.all(np.isfinite(a[o])) or not (float(np.max(np.abs(a[o] - b[o]))) <= 1e-10 * float(np.max(np.abs(b[o])))):
+            bad.append("section:resampling_changes:%s" % o)
+    # enclosed area from first principles (mid-skin lines, airfoil thickness scaled as the component documents)
+    for e in range(ne):
+        c = inp["fem_chords"][e]
+        sc = inp["t_over_c"][e] / 0.12 * inp["streamwise_chords"][e] / c
+        t = inp["skin_thickness"][e]
+        up = np.trapezoid(uy * c * sc - t / 2, ux * c)
+        lo = np.trapezoid(-yl * c * sc - t / 2, xl * c)
+        # ... minus half the thickness of the two spars over their height (mid-line of the spar walls)
+        ts = inp["spar_thickness"][e]
+        spars = ((uy[0] - yl[0]) + (uy[-1] - yl[-1])) * c * sc * ts / 2
+        if not (abs(a["A_enc"][e] - (up + lo - spars)) <= 1e-10 * abs(up + lo)):
+            bad.append("section:A_enc")
+            break
+    if not np.all(a["A"] > 0) or not np.all(a["J"] > 0):
+        bad.append("section:non_positive")
+    return {"k": k, "bad": bad}
+
+
 def _ks_job(k):
     from openaerostruct.structures.failure_exact import FailureExact
     from openaerostruct.structures.failure_ks import FailureKS
@@ -186,6 +237,9 @@ def _ks_job(k):
         vm = top * (1 - 1e-9 * rng.uniform(0, 1, N))  # nearly equal values
     vm = vm.reshape(nel, ncrit)
     s = _surf(nel + 1, "tube" if ncrit == 2 else "wingbox", sigma=sigma)
+    if ncrit == 4:
+        # the upper-skin knock-down is already contained in the wingbox stresses: the failure measures take stresses as they come
+        s["strength_factor_for_upper_skin"] = float(rng.choice([1.0, 0.8, 1.25]))
     if k % 2:
         # the same instance evaluated first at other stresses (another magnitude, the critical element elsewhere)
         prev = np.roll(vm.ravel()[::-1], int(rng.integers(0, N))).reshape(nel, ncrit) * float(10.0 ** rng.uniform(-9, 0)) + float(rng.uniform(0, 1e3))
@@ -229,6 +283,10 @@ def run(tier, only=None):
         R.case(["random", r["k"]], True, section="random")
         for sig in r["bad"]:
             R.violation(sig, {"k": r["k"], "case": r["case"]})
+    for r in check_exc(pmap(_wingbox_section_job, range(24 if tier == "quick" else 240))):
+        R.case(["wingbox_section", r["k"]], True, section="wingbox_section")
+        for sig in r["bad"]:
+            R.violation(sig, {"k": r["k"]})
     for r in check_exc(pmap(_ks_job, range(240 if tier == "quick" else 2400))):
         R.case(["ks", r["k"]], True, sample=r["case"] if r["k"] % 97 == 0 else None, section="ks")
         for sig in r["bad"]:
